@@ -105,7 +105,7 @@ claim("C03", "runtime monitor: bounded-progress oracle on a cycle-counting virtu
       "Held on every executed schedule: seeded random programs with blocking ops (sleep_forever, sleeps, event waits, handle waits) under cancels from self/sibling/agent before entry, while blocked, while runnable, during shielded cleanup, after catch-and-continue; exhaustive scope-chain family; spawn-into-cancelled-group family; checkpoint_if_cancelled() with shields raised around it (late_shield family; a program that spins is a violation). Measured maximum latency is recorded.",
       _TREE_NOTE, "DESIGN.md 5/C03")
 claim("C04", "runtime monitor: shadow scope model evaluated at every interruption and every scope exit (absorb iff own cancel and no visible cancelled parent; cancelled_caught == absorbed; other exceptions pass, also inside groups)",
-      "Held on every executed schedule: exhaustive scope chains of depth<=3 x shields x cancelled subsets x timing x canceller with a bystander task, plus seeded deep trees with shields toggled while active and synthetic mixed exception groups.",
+      "Held on every executed schedule: exhaustive scope chains of depth<=3 x shields x cancelled subsets x timing x canceller with a bystander task, plus seeded deep trees with shields toggled while active and synthetic mixed exception groups (every case with a native cancellation also with the __context__ chain native -> ordinary error -> AnyIO cancellation).",
       _TREE_NOTE, "DESIGN.md 5/C04")
 claim("C05", "runtime monitor: Task.cancelling() restored at scope/group exits in clean regions (also from a non-zero baseline: tasks holding native requests), no live loop handle of an exited scope, idle-loop cycle count, twin-differential runs of native asyncio constructs (timeout, TaskGroup, native cancel through a cancelled scope)",
       "Held on every executed schedule: seeded programs, scope-history family (1-4 scopes in sequence x 0-5 swallowed re-deliveries x nesting x deadlines), native twins (4 scenarios x re-deliveries x nesting x children; native children cancelling the parent's scope) on {stock, eager}; native constructs firing while the scope's own cancellation unwinds; known findings F21 (eager factory, CPython < 3.13) and F36 (native cancellation absorbed during the unwinding) classified by mechanism.",
@@ -118,7 +118,7 @@ claim("C07", "runtime monitor: case analysis over the logged order of started(),
       _TREE_NOTE, "DESIGN.md 5/C07")
 
 claim("C14", "runtime monitor with real threads: thread-safe event monitor (global sequence numbers) over gated thread functions, online bound on concurrently running non-abandoned functions, offline identity/ordering oracle; sys.monitoring preemption amplification; asyncio debug mode",
-      "Held (apart from the listed known finding F23: callbacks of abandoned threads) on every executed call set: seeded call sets (1-12 calls vs limiter 1-4; return/raise/from_thread callbacks (also ones taking an uncontended lock, with a loop-iteration counter against spinning)/check_cancelled probes; abandon_on_cancel on/off; nested scopes; cancels before start, while running, after the gate) with gate permutations and injected delays on asyncio(debug) and uvloop. Real-time: watchdog expiry is inconclusive.",
+      "Held (apart from the listed known finding F23: callbacks of abandoned threads) on every executed call set: seeded call sets (1-12 calls vs limiter 1-4; flag passed as abandon_on_cancel=, as the deprecated cancellable= alone, or both with conflicting values; return/raise/from_thread callbacks (also ones taking an uncontended lock, with a loop-iteration counter against spinning)/check_cancelled probes; abandon_on_cancel on/off; nested scopes; cancels before start, while running, after the gate) with gate permutations and injected delays on asyncio(debug) and uvloop. Real-time: watchdog expiry is inconclusive.",
       "OS thread scheduling plus injected pauses (only pauses the OS could add); wall-clock watchdogs are inconclusive, never violations, unless all thread functions are known to have ended; a share of the cases lowers the class constant WorkerThread.MAX_IDLE_TIME (10 s) to 0-4 ms from the harness so that idle-worker pruning happens",
       "DESIGN.md 5/C14")
 claim("C15", "runtime monitor with real threads: exactly-once / routing / join oracle over a thread-safe event log of caller threads, portal tasks and a conductor thread; bounded-progress rule for future cancellation with a loop heartbeat; preemption amplification; known finding F14 classified by mechanism",
